@@ -157,7 +157,7 @@ def shapes(tier):
     for (mode, pl, code, n) in c07.shapes(tier):
         kind = V.DATATYPES[code][2]
         out.append((mode, pl, code, n, False))
-        if kind != 'scalar' and pl in (0, 13, 33, 128):
+        if kind != 'scalar' and pl in (0, 13, 33, 128) and (n <= 40 or n in (128, 255, 256, 510, 511, 512, 32768, 65535)):
             out.append((mode, pl, code, n, True))
     return out
 
